@@ -75,15 +75,26 @@ def build_mask(kind, shape):
     if kind == 'circle':
         rad = min(n0, n1) / 2 - 0.2
         return (I - n0 // 2) ** 2 + (J - n1 // 2) ** 2 <= rad * rad
-    if kind == 'half':      # slanted half-plane; removes whole columns on the right, so crop has work to do
-        return (J - n1 // 2) + 0.5 * (I - n0 // 2) <= 1.2
+    if kind == 'half':      # slanted half-plane: removes the columns >= n1//2 + 2 entirely (crop then moves the centre
+        # sample for even and for 7-wide arrays) and the lower half of column n1//2 + 1 (a slanted, ragged edge)
+        return (J - n1 // 2) + 0.25 * (I - n0 // 2) <= 0.9
     raise ValueError(kind)
 
 
 # ---------------------------------------------------------------------------------------------
 # initial states
 
+_DATA = {}
+
+
 def make_data(init, seed):
+    key = (tuple(init['shape']), init['nan'], seed)
+    if key not in _DATA:
+        _DATA[key] = _make_data(init, seed)
+    return _DATA[key].copy()
+
+
+def _make_data(init, seed):
     n0, n1 = init['shape']
     I, J = np.indices((n0, n1)).astype(float)
     u = (J - n1 // 2 + 0.25) / 3.0
@@ -94,8 +105,11 @@ def make_data(init, seed):
     if pat == 'circle':
         z[~build_mask('circle', (n0, n1))] = np.nan
     elif pat == 'ragged':
+        # first row and last two columns entirely invalid: the bounding box is off-centre for every parity, so
+        # crop moves the centre sample (recenter after crop is not a no-op); plus a ragged rim
         z[0, :] = np.nan
-        z[::2, -1] = np.nan
+        z[:, -2:] = np.nan
+        z[::2, -3] = np.nan
         z[-1, 0] = np.nan
         z[1, :2] = np.nan
     elif pat == 'dropout':
@@ -558,6 +572,8 @@ def plan(tier, seed):
     inits = [{'shape': s, 'nan': p, 'dx': dx}
              for p in ('none', 'circle', 'ragged', 'dropout') for s in shapes for dx in (0.5, 0.0)]
     depth = 3 if tier == 'quick' else 4
+    deep = [{'shape': [6, 6], 'nan': 'none', 'dx': 0.5}, {'shape': [5, 7], 'nan': 'ragged', 'dx': 0.5},
+            {'shape': [6, 5], 'nan': 'circle', 'dx': 0.0}, {'shape': [6, 6], 'nan': 'dropout', 'dx': 0.5}]
     names = ', '.join(ev if isinstance(ev, str) else f'{ev[0]}({ev[1]})' for ev in _alphabet(tier))
     rule = (f'BFS to depth {depth} over every sequence of the {len(_alphabet(tier))} events [{names}] (filter enabled only on fully valid, calibrated, '
             '>= 4x4 data) from every initial state in shapes {6x6, 5x7, 6x5} x NaN pattern {none, circular aperture, ragged edge, interior '
@@ -565,5 +581,12 @@ def plan(tier, seed):
             'populated caches + their values, NaN set, data rounded to 1e-9); coordinate invariants, statistics and the per-event reference '
             'model are evaluated after every event; states with incoherent coordinates or a raised exception are reported and not expanded; '
             'a transition is non-trivial when the array has more than one sample')
-    return [HistoryUnit('histories', inits, fresh, make_events(tier), apply, check, canon, depth, rule,
-                        summary=summary, step_check=step_check, reset=lambda: reset_executors(64))]
+    rs = lambda: reset_executors(64)   # noqa
+    units = [HistoryUnit('histories', inits, fresh, make_events(tier), apply, check, canon, depth, rule,
+                         summary=summary, step_check=step_check, reset=rs)]
+    if tier == 'thorough':
+        units.append(HistoryUnit('histories_deep', deep, fresh, make_events(tier), apply, check, canon, 5,
+                                 'the same exploration to depth 5 from four of the initial states (one per NaN pattern, all three shapes, '
+                                 'calibrated and uncalibrated): ' + ', '.join(f"{d['shape'][0]}x{d['shape'][1]}/{d['nan']}/dx={d['dx']}" for d in deep),
+                                 summary=summary, step_check=step_check, reset=rs))
+    return units
